@@ -93,6 +93,15 @@ def configs(tier):
                 cfg.update({"elements": "E,H,HE,C,O,SI", "pseudo-elements": "CRP,PHOTON,CRPHOT", "element-replacement": rep, "network-files": "iceuc.ucl", "file-formats": "uclchem",
                             "grain-model": "rr07", "binding": binding, "yield": yld, "extra-species": "H, H2"})
                 add(cfg, "family:ice-tables-replaced-keys")
+    # a family in which the three species symbols decide how the species lists are read
+    # (names with the bulk prefix are not readable by the species parser at all, so the bulk symbol only reaches the TOML)
+    for grain, surf, bulk in (("GRAIN", "#", "@"), ("DUST", "#", "@"), ("GRAIN", "G", "@"), ("GRAIN", "#", "B"), ("DUST", "G", "B")):
+        for extra in (f"{surf}CO, CO", f"{grain}0, {grain}-, e-", f"{surf}CO, {grain}0, CO"):
+            for allowed in ("", f"C,CH,H,C2,CO,{surf}CO,{grain}0,{grain}-,e-"):
+                cfg = dict(BASE)
+                cfg.update({"grain-symbol": grain, "surface-prefix": surf, "bulk-prefix": bulk, "extra-species": extra, "allowed-species": allowed,
+                            "binding": f"{surf}CO=1300.0" if surf in extra else ""})
+                add(cfg, "family:symbols-effective")
     pool = INTERACTING if tier == "quick" else [o for o in ALPHABET if o not in ("heating",)]
     pairs = list(itertools.combinations(pool, 2))
     for a, b in pairs:
